@@ -632,23 +632,25 @@ pub fn run(ctx: &Ctx) -> Result<Run, String> {
             }
         }
     }
-    let mut schedules = 0u64;
-    let mut capped = false;
+    let mut combos: Vec<(u8, u8, u8, u8)> = vec![];
     for cap in 0..3u8 {
         for lock in 0..2u8 {
             for (a, b) in [(4u8, 4u8), (4, 3), (3, 3), (3, 2), (4, 0), (3, 0), (2, 4)] {
-                stats.case(&("overlap", cap, lock, a, b), true, "overlapping-ceremonies");
-                let (fs, n, c) = overlap_one(cap, lock, a, b, ctx.tier.pick(Some(3), None), 400_000);
-                schedules += n;
-                capped |= c;
-                for (k, d) in fs {
-                    stats.finding(Finding::new(format!("level=client/overlap/kind={k}"), d, json!({"overlap": {"cap": cap, "lock": lock, "a": a, "b": b}})));
-                }
+                combos.push((cap, lock, a, b));
             }
         }
     }
-    stats.count("overlap_schedules", schedules);
-    stats.count("overlap_schedule_cap_hit", u64::from(capped));
+    let bound = ctx.tier.pick(Some(3), None);
+    let ov = par::sweep_cases(&combos, ctx.threads, |&(cap, lock, a, b), st| {
+        st.case(&("overlap", cap, lock, a, b), true, "overlapping-ceremonies");
+        let (fs, n, c) = overlap_one(cap, lock, a, b, bound, 400_000);
+        st.count("overlap_schedules", n);
+        st.count("overlap_schedule_cap_hit", u64::from(c));
+        for (k, d) in fs {
+            st.finding(Finding::new(format!("level=client/overlap/kind={k}"), d, json!({"overlap": {"cap": cap, "lock": lock, "a": a, "b": b}})));
+        }
+    });
+    stats.merge(ov);
     let n = cs.len() as u64;
     let mut run = Run::from_stats(
         "model_checking",
